@@ -171,7 +171,7 @@ func run(c *harness.Case) {
 	nCrit := criteriaCount(rule)
 	detail := func(extra map[string]any) map[string]any {
 		d := map[string]any{"rule": rule.String(), "ipsets": setMembers,
-			"marks": fmt.Sprintf("accept=%#x pass=%#x drop=%#x scratch0=%#x scratch1=%#x sentinel=%#x", accept, pass, drop, scratch0, scratch1, sentinel),
+			"marks":    fmt.Sprintf("accept=%#x pass=%#x drop=%#x scratch0=%#x scratch1=%#x sentinel=%#x", accept, pass, drop, scratch0, scratch1, sentinel),
 			"flowlogs": cfg.FlowLogsEnabled, "reject": reject}
 		for k, v := range extra {
 			d[k] = v
@@ -374,19 +374,19 @@ func main() {
 		Cases: cases,
 		Run:   run,
 		Floors: map[string]int64{
-			okCounter:                  int64(cases(tierFromArgs())),
-			"rules_rendered_iptables":  2000,
-			"rules_rendered_nft":       2000,
-			"packets_iptables":         10000,
-			"packets_nft":              10000,
-			"matches_iptables":         1500,
-			"matches_nft":              1500,
-			"nonmatches_iptables":      5000,
-			"nonmatches_nft":           5000,
-			"matches_allow":            500,
-			"matches_deny":             300,
-			"matches_pass":             150,
-			"matches_log":              80,
+			okCounter:                            int64(cases(tierFromArgs())),
+			"rules_rendered_iptables":            2000,
+			"rules_rendered_nft":                 2000,
+			"packets_iptables":                   10000,
+			"packets_nft":                        10000,
+			"matches_iptables":                   1500,
+			"matches_nft":                        1500,
+			"nonmatches_iptables":                5000,
+			"nonmatches_nft":                     5000,
+			"matches_allow":                      500,
+			"matches_deny":                       300,
+			"matches_pass":                       150,
+			"matches_log":                        80,
 			"renders_with_match_blocks_iptables": 100,
 			"renders_with_match_blocks_nft":      100,
 		},
